@@ -4,6 +4,7 @@ import (
 	"fmt"
 	"go/token"
 	"go/types"
+	"sort"
 	"strings"
 
 	"golang.org/x/tools/go/ssa"
@@ -137,6 +138,7 @@ func runC03(c *core.Ctx) {
 	c03R4(c, "C03.R4")
 	c03R5(c)
 	c03R6(c)
+	c20R5as(c, "C03.R7")
 }
 
 // authorizerImpls returns the Authorize methods of production implementers of service.Authorizer.
@@ -249,6 +251,25 @@ func c03R1(c *core.Ctx, rule string) {
 		}
 		c.Check(fresh, rule, name+":key is freshly decrypted", dec.Pos(), "the key handed out is the buffer decrypted for this very call (callers such as ExtendKey modify it in place)", "Authorize may hand out a key that aliases shared storage ("+why+"); ExtendKey edits the returned key in place, so a later request with the same key string sees a different key")
 		key := extractOf(dec, 0)
+		if key != nil {
+			// the same question asked of the whole call chain (keygen.DecryptKey -> every license.Cipher):
+			// the bytes of the key may alias only a buffer allocated for this call
+			oc := &originCtx{c: c, memo: map[*ssa.Function]*keyOrigin{}, busy: map[*ssa.Function]bool{}}
+			o := oc.of(key, map[ssa.Value]bool{}, 0)
+			var ps []string
+			for i := range o.params {
+				ps = append(ps, fmt.Sprintf("parameter #%d", i))
+			}
+			sort.Strings(ps)
+			switch {
+			case o.bad != "":
+				c.Fail(rule, name+":key bytes are private to the call", dec.Pos(), "the key handed out by Authorize can alias shared storage ("+o.bad+"); ExtendKey edits the returned key in place (permissions, target, expiry), so the next request presenting the same key text is authorised with different contents")
+			case len(ps) > 0:
+				c.Fail(rule, name+":key bytes are private to the call", dec.Pos(), "the key handed out by Authorize aliases "+strings.Join(ps, ", ")+" of Authorize itself (caller-owned storage)")
+			default:
+				c.OK(rule, name+":key bytes are private to the call", dec.Pos(), fmt.Sprintf("through %d summarised functions the key aliases only buffers allocated during this call", len(oc.memo)))
+			}
+		}
 		gets := callsIn(f, idProviderGet)
 		if len(gets) != 1 {
 			c.Undecided(rule, name+":contracts.Get", f.Pos(), fmt.Sprintf("expected exactly one contract Provider.Get call, found %d", len(gets)))
@@ -792,4 +813,158 @@ func c03R6(c *core.Ctx) {
 	if g, s := fn(c, rule, "internal/security", "Key", "Permissions"), fn(c, rule, "internal/security", "Key", "SetPermissions"); g != nil && s != nil {
 		c.Check(want(idxSet(g, false), 15) && want(idxSet(s, true), 15), rule, "Permissions/SetPermissions:byte", g.Pos(), "permissions live in byte 15", "Permissions/SetPermissions do not both use exactly byte 15")
 	}
+}
+
+// ---- key freshness: where can the bytes of a returned security.Key live? -------------------
+
+// keyOrigin describes the storage a slice value may alias: parameters of the enclosing
+// function (by index), or nothing (freshly allocated in this call). bad names a source that is
+// shared storage (a field, map, global, cache lookup) or cannot be summarised.
+type keyOrigin struct {
+	params map[int]bool
+	bad    string
+}
+
+func (o *keyOrigin) merge(p keyOrigin) {
+	for k := range p.params {
+		o.params[k] = true
+	}
+	if o.bad == "" {
+		o.bad = p.bad
+	}
+}
+
+type originCtx struct {
+	c    *core.Ctx
+	memo map[*ssa.Function]*keyOrigin
+	busy map[*ssa.Function]bool
+}
+
+// summary: origins of result #0 of fn in terms of fn's parameters.
+func (oc *originCtx) summary(fn *ssa.Function) keyOrigin {
+	if m, ok := oc.memo[fn]; ok {
+		return *m
+	}
+	if oc.busy[fn] {
+		return keyOrigin{params: map[int]bool{}}
+	}
+	if fn.Blocks == nil {
+		return keyOrigin{params: map[int]bool{}, bad: "result of " + fn.String() + " (no source in scope)"}
+	}
+	oc.busy[fn] = true
+	out := keyOrigin{params: map[int]bool{}}
+	for _, v := range eng.ResultValues(fn, 0) {
+		out.merge(oc.of(v, map[ssa.Value]bool{}, 0))
+	}
+	oc.busy[fn] = false
+	oc.memo[fn] = &out
+	oc.c.Count("functions_analysed", 1)
+	return out
+}
+
+func (oc *originCtx) of(v ssa.Value, seen map[ssa.Value]bool, d int) keyOrigin {
+	out := keyOrigin{params: map[int]bool{}}
+	if v == nil || seen[v] {
+		return out
+	}
+	if d > 24 {
+		out.bad = "value too deep to follow: " + eng.Describe(v)
+		return out
+	}
+	seen[v] = true
+	switch x := v.(type) {
+	case *ssa.Const:
+		return out
+	case *ssa.Parameter:
+		for i, p := range x.Parent().Params {
+			if p == x {
+				out.params[i] = true
+			}
+		}
+		return out
+	case *ssa.MakeSlice, *ssa.Alloc:
+		return out
+	case *ssa.Convert:
+		if b, ok := x.X.Type().Underlying().(*types.Basic); ok && b.Info()&types.IsString != 0 {
+			return out // []byte(string) copies
+		}
+		return oc.of(x.X, seen, d+1)
+	case *ssa.ChangeType:
+		return oc.of(x.X, seen, d+1)
+	case *ssa.Slice:
+		return oc.of(x.X, seen, d+1)
+	case *ssa.Phi:
+		for _, e := range x.Edges {
+			out.merge(oc.of(e, seen, d+1))
+		}
+		return out
+	case *ssa.Extract:
+		if call, ok := x.Tuple.(*ssa.Call); ok && x.Index == 0 {
+			return oc.call(call, seen, d)
+		}
+	case *ssa.Call:
+		return oc.call(x, seen, d)
+	case *ssa.UnOp:
+		if x.Op == token.MUL {
+			if al, ok := x.X.(*ssa.Alloc); ok {
+				// local variable (spilled): union of everything stored into it
+				n := 0
+				for _, r := range *al.Referrers() {
+					if st, ok := r.(*ssa.Store); ok && st.Addr == al {
+						n++
+						out.merge(oc.of(st.Val, seen, d+1))
+					}
+				}
+				if n > 0 {
+					return out
+				}
+			}
+			out.bad = "loaded from shared storage: " + eng.Describe(x)
+			return out
+		}
+	}
+	out.bad = "not a fresh buffer: " + eng.Describe(v)
+	return out
+}
+
+func (oc *originCtx) call(call *ssa.Call, seen map[ssa.Value]bool, d int) keyOrigin {
+	out := keyOrigin{params: map[int]bool{}}
+	if b, ok := call.Call.Value.(*ssa.Builtin); ok {
+		if b.Name() == "append" {
+			// may return its first argument's storage
+			return oc.of(call.Call.Args[0], seen, d+1)
+		}
+		out.bad = "builtin " + b.Name()
+		return out
+	}
+	var callees []*ssa.Function
+	if sc := call.Call.StaticCallee(); sc != nil {
+		callees = []*ssa.Function{sc}
+	} else {
+		for _, e := range oc.c.P.CG().Out[call.Parent()] {
+			if e.Site == ssa.CallInstruction(call) {
+				callees = append(callees, e.Callee)
+			}
+		}
+	}
+	if len(callees) == 0 {
+		out.bad = "result of an unresolved call: " + eng.Describe(call)
+		return out
+	}
+	args := eng.CallArgs(&call.Call)
+	for _, cal := range callees {
+		s := oc.summary(cal)
+		if s.bad != "" && out.bad == "" {
+			out.bad = s.bad + " (via " + fnName(cal) + ")"
+		}
+		off := len(cal.Params) - len(args)
+		for pi := range s.params {
+			if ai := pi - off; ai >= 0 && ai < len(args) {
+				out.merge(oc.of(args[ai], seen, d+1))
+			} else if out.bad == "" {
+				out.bad = "aliases a bound receiver of " + fnName(cal)
+			}
+		}
+	}
+	return out
 }
